@@ -6,12 +6,16 @@ from common import *
 def run_property(prop, tier, seed):
     parts = []
     import props_r, run_k
-    use = os.environ.get("VERIF_ENGINES", "RKM")
+    use = os.environ.get("VERIF_ENGINES", "RKMN")
     if prop in props_r.R_PROPS and "R" in use:
         import run_r
         parts.append(run_r.run(prop, tier, seed))
     if prop in run_k.K_PROPS and "K" in use:
         parts.append(run_k.run(prop, tier, seed))
+    if "N" in os.environ.get("VERIF_ENGINES", "RKMN"):
+        g = run_k.native_grid(prop, tier, seed)
+        if g:
+            parts.append(g)
     try:
         import run_m
         if prop in run_m.M_PROPS and "M" in use:
